@@ -363,7 +363,7 @@ def replay(case):
     bind_repo()
     objspec = tuple(case["obj"])
     objspec = (objspec[0], objspec[1] if objspec[0] == "ind" else tuple(tuple(m) for m in objspec[1]),
-               objspec[2] if objspec[0] == "ind" else tuple(tuple(x) for x in objspec[2]))
+               objspec[2] if objspec[0] == "ind" else tuple(tuple(x) for x in objspec[2])) + tuple(objspec[3:])
     raw = raw_stream(case["word"], "+", A.regular_gaps("reg", len(case["word"]), 120), "T2")
     if case["oracle"] in ("accessor", "usable"):
         obj, pos = build(objspec, raw, case["state"])
